@@ -21,3 +21,35 @@ package mary
 //@   ensures checked: err == nil && !old(len(config) > 0 && config[0].SkipBodyHashValidation) ==>
 //@       called(ValidateBlockBodyHash) && callres(ValidateBlockBodyHash) == nil && callarg(ValidateBlockBodyHash, 0) == data &&
 //@       callarg(ValidateBlockBodyHash, 3) == 4 && called(BlockBodyHash) && callarg(ValidateBlockBodyHash, 1) == callres(BlockBodyHash)
+
+// BEGIN generated C01 contracts (tools/gen_c01_contracts.py in /verif)
+// C01: a decoder that keeps its input stores exactly the bytes it was given; an identifier
+// is Blake2b-256 of the stored bytes (the cache, when set, holds that hash).
+//@ func (b *MaryTransactionBody) UnmarshalCBOR(cborData) (err)
+//@   props C01
+//@   attr maxpaths 4000
+//@   attr safe off
+//@   requires recv: b != nil
+//@   ensures stored: err == nil ==> seq(b.cborData) == seq(cborData) && len(b.cborData) == len(cborData)
+
+//@ func (t *MaryTransaction) UnmarshalCBOR(cborData) (err)
+//@   props C01
+//@   attr maxpaths 4000
+//@   attr safe off
+//@   requires recv: t != nil
+//@   ensures stored: err == nil ==> seq(t.cborData) == seq(cborData) && len(t.cborData) == len(cborData)
+
+//@ func (o *MaryTransactionOutput) UnmarshalCBOR(cborData) (err)
+//@   props C01
+//@   attr maxpaths 4000
+//@   attr safe off
+//@   requires recv: o != nil
+//@   ensures stored: err == nil ==> seq(o.cborData) == seq(cborData) && len(o.cborData) == len(cborData)
+
+//@ func (u *MaryProtocolParameterUpdate) UnmarshalCBOR(cborData) (err)
+//@   props C01
+//@   attr maxpaths 4000
+//@   attr safe off
+//@   requires recv: u != nil
+//@   ensures stored: err == nil ==> seq(u.cborData) == seq(cborData) && len(u.cborData) == len(cborData)
+// END generated C01 contracts
